@@ -9,6 +9,7 @@ package main
 import (
 	"bufio"
 	"fmt"
+	"math"
 	"os"
 	"strings"
 
@@ -432,6 +433,96 @@ func genFar(r *vproto.Rng, par [2]int, kind string, layout int, i int) *rtwire.H
 	return h
 }
 
+// round: NON-dyadic data, judged by the Spec only (class carries "specOnly": the tree heuristics' areas are
+// inexact in float64, so the tree may differ from the exact model by tie-breaking) with a relative
+// tolerance of 2^-40 on squared distances (the float64 distances carry a few ulp = 2^-52 of rounding).
+// What it is after: MINMAXDIST pruning on ROUNDED values.  layout 0/1: point clouds / small boxes on
+// the k/10 (k/7, k/3) grid in which coordinates are shared (zero-width / zero-height node boxes), the
+// query outside the slab of such a box: before fix ef912a0 `S - d1*d1 + d2*d2` could round below MINDIST
+// of the same box and every branch was pruned (panic "nearest neighbor is nil" on a non-empty tree).
+// layout 2/3: one axis lives at 2^52 + {0..3} (all differences, squares and sums exact), the other on
+// eighths: the midpoint (Min+Max)/2 of a node box is not a float64 there, and the old face selection
+// took the NEARER face for the far one (MINMAXDIST too small by up to 1: the branch holding the nearest
+// object was pruned, wrong answers by 30 % of the distance).
+func genRound(r *vproto.Rng, par [2]int, kind string, layout int, i int) *rtwire.Hist {
+	h := &rtwire.Hist{Min: par[0], Max: par[1], Kind: kind, KQs: []rtwire.KQ{},
+		Queries: []rtwire.Box{{MinX: 0, MinY: 0, MaxX: 1, MaxY: 1}}}
+	h.Class = fmt.Sprintf("nn-round%d-specOnly-%s-m%dM%d", layout, kind, par[0], par[1])
+	var cx, cy func() float64
+	if layout < 2 {
+		d := []float64{10, 10, 7, 3}[r.Intn(4)]
+		var shared []float64
+		for c := 0; c < 4; c++ {
+			shared = append(shared, float64(r.Intn(100))/d)
+		}
+		c := func() float64 {
+			if r.Chance(0.5) {
+				return shared[r.Intn(len(shared))]
+			}
+			return float64(r.Intn(100)) / d
+		}
+		cx, cy = c, c
+	} else {
+		big := func() float64 { return float64(uint64(1)<<52) + float64(r.Intn(4)) }
+		small := func() float64 { return float64(r.Range(-40, 40)) / 8 }
+		cx, cy = small, big
+		if layout == 3 {
+			cx, cy = big, small
+		}
+	}
+	n := 4 + r.Intn(4*par[1])
+	if n > 40 {
+		n = 40
+	}
+	seen := map[[2]float64]bool{}
+	for tries := 0; len(h.Pool) < n+3 && tries < 4000; tries++ {
+		x, y := cx(), cy()
+		if seen[[2]float64{x, y}] && (kind == "pt" || r.Chance(0.9)) { // equal geom.Point values are one object
+			continue
+		}
+		seen[[2]float64{x, y}] = true
+		b := rtwire.Box{MinX: x, MinY: y, MaxX: x, MaxY: y}
+		if kind != "pt" && r.Chance(0.35) { // segments and small boxes between grid values
+			x2, y2 := cx(), cy()
+			switch r.Intn(3) {
+			case 0:
+				x2 = x
+			case 1:
+				y2 = y
+			}
+			b = rtwire.Box{MinX: math.Min(x, x2), MinY: math.Min(y, y2), MaxX: math.Max(x, x2), MaxY: math.Max(y, y2)}
+		}
+		h.Pool = append(h.Pool, b)
+	}
+	if len(h.Pool) < 4 {
+		h.Pool = append(h.Pool, rtwire.Box{MinX: 1, MinY: 1, MaxX: 1, MaxY: 1}, rtwire.Box{MinX: 2, MinY: 1, MaxX: 2, MaxY: 1},
+			rtwire.Box{MinX: 3, MinY: 5, MaxX: 3, MaxY: 5}, rtwire.Box{MinX: 4, MinY: 2, MaxX: 4, MaxY: 2})
+	}
+	n = len(h.Pool) - 3
+	s := &st{h: h}
+	ask := func(m int) {
+		for c := 0; c < m; c++ {
+			ks := []int{0, 1, 0, 1, 0, 2, 0, 1, 3, 0, len(s.present), 0, 1, len(s.present) + 2}
+			s.ask(cx(), cy(), ks[(c+i)%len(ks)])
+		}
+	}
+	for id := 0; id < n; id++ {
+		s.ins(id)
+		if id >= par[1] && id%3 == 0 { // also while the tree grows (just after the first splits)
+			ask(2)
+		}
+	}
+	ask(10)
+	for c := 0; c < 3 && len(s.present) > 2; c++ {
+		s.del(s.present[r.Intn(len(s.present))])
+	}
+	for id := n; id < len(h.Pool); id++ {
+		s.ins(id)
+	}
+	ask(8)
+	return h
+}
+
 // bigk: more than 64 (and more than 128) stored objects and k around 64 / 128 / Size, so that
 // result slots beyond a fixed small prefix are exercised (every slot must start at MaxFloat64 and
 // every slot must be shifted by insertNearest).
@@ -583,6 +674,45 @@ func gen(seed uint64, tier string) []*rtwire.Hist {
 		}
 		hs = append(hs, h)
 	}
+	// rounded MINMAXDIST (fixed by ef912a0): (a) two points with X = 9.8 make a zero-width leaf box whose
+	// MINMAXDIST S - d1*d1 + d2*d2 rounded below its MINDIST: every branch pruned, NearestNeighbor panicked;
+	// (b) Y at 2^52 + {0..3}: the midpoint of a node box is not a float64, the nearer face was taken for
+	// the far one and the branch holding the nearest object was pruned.
+	for ki, kind := range rtwire.Kinds {
+		pts := [][2]float64{{6.5, 8.9}, {9.8, 3.4}, {3.2, 7.8}, {4.9, 5.4}, {9.8, 5.7}}
+		var pool []rtwire.Box
+		for _, c := range pts {
+			pool = append(pool, rtwire.Box{MinX: c[0], MinY: c[1], MaxX: c[0], MaxY: c[1]})
+		}
+		h := &rtwire.Hist{Class: "nn-corpus-round-specOnly-zero-width", Min: 2, Max: 4, Kind: kind, Pool: pool,
+			Queries: []rtwire.Box{{MinX: 0, MinY: 0, MaxX: 1, MaxY: 1}}, KQs: []rtwire.KQ{}}
+		s := &st{h: h}
+		for id := range pool {
+			s.ins(id)
+		}
+		for _, k := range []int{0, 1, 2, 5, 7} {
+			s.ask(8, 2.7, k)
+		}
+		s.ask(9.8, 0.1, 0)
+		s.ask(0.3, 3.4, ki)
+		hs = append(hs, h)
+		b := float64(uint64(1) << 52)
+		pts = [][2]float64{{4.625, b}, {1.875, b + 3}, {-2.5, b + 1}, {-3.25, b + 3}, {-3, b + 1}, {1.5, b + 2}}
+		pool = nil
+		for _, c := range pts {
+			pool = append(pool, rtwire.Box{MinX: c[0], MinY: c[1], MaxX: c[0], MaxY: c[1]})
+		}
+		h = &rtwire.Hist{Class: "nn-corpus-round-specOnly-midpoint", Min: 2, Max: 4, Kind: kind, Pool: pool,
+			Queries: []rtwire.Box{{MinX: 0, MinY: 0, MaxX: 1, MaxY: 1}}, KQs: []rtwire.KQ{}}
+		s = &st{h: h}
+		for id := range pool {
+			s.ins(id)
+		}
+		for _, k := range []int{0, 1, 2, 6, 8} {
+			s.ask(-2.625, b+2, k)
+		}
+		hs = append(hs, h)
+	}
 	// k = 0 and negative k (outside the property): empty slice / makeslice panic, tree untouched
 	for ki, kind := range rtwire.Kinds {
 		pool := []rtwire.Box{{MinX: 1, MinY: 1, MaxX: 1, MaxY: 1}, {MinX: 4, MinY: 0, MaxX: 4, MaxY: 0}, {MinX: 2, MinY: 5, MaxX: 2, MaxY: 5},
@@ -684,6 +814,14 @@ func gen(seed uint64, tier string) []*rtwire.Hist {
 	for i := 0; i < nbig; i++ {
 		par := [][2]int{{25, 50}, {4, 8}, {2, 4}, {3, 7}}[i%4]
 		hs = append(hs, genBigK(r, par, rtwire.Kinds[(i/4)%3], i))
+	}
+	nround := 80
+	if tier == "thorough" {
+		nround = 800
+	}
+	for i := 0; i < nround; i++ {
+		par := [][2]int{{2, 4}, {2, 3}, {2, 5}, {3, 6}, {4, 8}, {3, 7}}[i%6]
+		hs = append(hs, genRound(r, par, rtwire.Kinds[(i/6)%3], []int{0, 1, 2, 0, 3, 1}[(i/2)%6], i))
 	}
 	return hs
 }
